@@ -47,6 +47,11 @@ type Contract struct {
 	Loops    map[int]*LoopSpec
 	Replay   []string
 	Opts     map[string]string
+	ExecParams, ExecResults []string // names for the literals a generator assigns to n.exec
+	ExecEnsures, ExecRequires []Clause
+	FnParams, FnResults []string // names for the function value a generator returns
+	FnEnsures []Clause
+	Completes []Clause // conditions under which the generator must have installed an exec closure
 	LitGen   string // for literal units: key of the enclosing function
 	LitSel   string // selector of the literal(s): calls:<fn> | exec#<k> | makefunc#<k>
 	used     bool
@@ -391,7 +396,17 @@ func (db *ContractDB) loadFile(fn string) error {
 			}
 		case "replay":
 			cur.Replay = append(cur.Replay, rest)
-		case "requires", "ensures", "case", "canary", "let", "invariant", "exits":
+		case "exec", "result-fn":
+			_, ps, rs, err := parseHeader("x" + rest)
+			if err != nil {
+				return fmt.Errorf("%s:%d: %v", fn, ln+1, err)
+			}
+			if word == "exec" {
+				cur.ExecParams, cur.ExecResults = ps, rs
+			} else {
+				cur.FnParams, cur.FnResults = ps, rs
+			}
+		case "requires", "ensures", "case", "canary", "let", "invariant", "exits", "exec-ensures", "exec-requires", "fn-ensures", "exec-canary", "completes":
 			cl, err := parseClause(rest, fn, ln+1)
 			if err != nil {
 				return err
@@ -407,6 +422,20 @@ func (db *ContractDB) loadFile(fn string) error {
 				cur.Canaries = append(cur.Canaries, cl)
 			case "exits":
 				cur.Exits = append(cur.Exits, cl)
+			case "exec-ensures":
+				cur.ExecEnsures = append(cur.ExecEnsures, cl)
+			case "exec-canary":
+				if cl.Label == "" {
+					cl.Label = "c"
+				}
+				cl.Label = "canary:" + cl.Label
+				cur.ExecEnsures = append(cur.ExecEnsures, cl)
+			case "completes":
+				cur.Completes = append(cur.Completes, cl)
+			case "exec-requires":
+				cur.ExecRequires = append(cur.ExecRequires, cl)
+			case "fn-ensures":
+				cur.FnEnsures = append(cur.FnEnsures, cl)
 			case "let":
 				cur.Lets = append(cur.Lets, cl)
 			case "invariant":
